@@ -47,3 +47,11 @@ extern "C" {
 bool drv_ab_ready(future<int>::awaitable_bool *a) { return a->await_ready(); }
 bool drv_ab_bool(const future<int>::awaitable_bool *a) { return (bool)*a; }
 }
+// ---- blocking styles of future<int> and co_awaiter<future<int>> (C02 forwarder units: specs/C02/w_spec.h)
+extern "C" {
+int drv_aw_force_wait(co_awaiter<future<int>> *a) { return a->force_wait(); }
+int drv_fu_wait(future<int> *f) { return f->wait(); }
+int drv_fu_force_wait(future<int> *f) { return f->force_wait(); }
+void drv_fu_sync(const future<int> *f) { f->sync(); }
+void drv_fu_force_sync(const future<int> *f) { f->force_sync(); }
+}
